@@ -340,27 +340,34 @@ def _nonzero_order_test(tt, meta, meta_node):
     inner = c[0][0]
     cmp_ = None
     src = None
+    direct = None     # (edge attribute term, iteration element) when the comparison is made on the edge attribute itself
     if inner[0] == "cmp" and len(inner[1]) == 1:
         cmp_, src = inner, inner[2][0]
-    elif inner[0] == "comp" and inner[3][0] == "cmp" and len(inner[3][1]) == 1:
+    elif inner[0] == "comp" and inner[3][0] == "cmp" and len(inner[3][1]) == 1 and len(inner[4]) == 1 and not inner[4][0][2]:
         cmp_ = inner[3]
-        src = inner[4][0][1][2] if inner[4][0][1][0] == "iter" else None
-        if cmp_[2][0] != inner[4][0][1]:
-            return None
+        elem0 = inner[4][0][1]
+        if cmp_[2][0] == elem0:
+            src = elem0[2] if elem0[0] == "iter" else None
+        else:
+            direct = (cmp_[2][0], elem0)
     if cmp_ is None or cmp_[2][1] not in (("const", 0), ("const", 0.0)) or cmp_[1][0] not in ("==", "!=", ">"):
         return None
-    # src: [np.array](list of meta.edges[(meta_node, neigh)]['order'] for neigh in meta.neighbors(meta_node))
-    a = is_call(src, "numpy.array", "numpy.asarray")
-    if a and a[0]:
-        src = a[0][0]
-    src = strip_wrappers(src)
-    if not (src and src[0] == "comp" and len(src[4]) == 1 and not src[4][0][2]):
-        return None
-    ea = edge_attr(src[3])
-    elem = src[4][0][1]
+    if direct is None:
+        # src: [np.array](list of meta.edges[(meta_node, neigh)]['order'] for neigh in meta.neighbors(meta_node))
+        a = is_call(src, "numpy.array", "numpy.asarray")
+        if a and a[0]:
+            src = a[0][0]
+        src = strip_wrappers(src)
+        if not (src and src[0] == "comp" and len(src[4]) == 1 and not src[4][0][2]):
+            return None
+        direct = (src[3], src[4][0][1])
+    ea = edge_attr(direct[0])
+    elem = direct[1]
     if not ea or ea[0] != meta or ea[2] != ("const", "order"):
         return None
     if ea[1] not in (("tuple", (meta_node, elem)), ("tuple", (elem, meta_node))):
+        return None
+    if elem[0] != "iter":
         return None
     it = strip_wrappers(elem[2])
     mn = method_call(it, "neighbors")
